@@ -676,14 +676,31 @@ FAMILIES["C18"] = C18
 _ROBUST_CORPUS = dict(
     policy=['@id("a") permit(principal == User::"u1", action in [Action::"view"], resource is Doc in Group::"g") when { principal.n + -1 < 3 && context.flag } unless { resource.owner has mgr.n || [1, "a\\u{1F600}"].contains(principal.getTag("k")) };',
             'forbid(principal, action, resource) when { if ip("10.0.0.1/8").isInRange(ip("10.0.0.0/8")) then decimal("1.5").lessThan(decimal("2.0")) else principal like "a\\*b*" };',
-            'permit(principal == ?principal, action, resource in ?resource) when { {a: 1, "b c": [User::"u1"]}.a == 1 };'],
+            'permit(principal == ?principal, action, resource in ?resource) when { {a: 1, "b c": [User::"u1"]}.a == 1 };',
+            'permit(principal, action, resource) when { datetime("2024-02-29T10:20:30.123+0530") < datetime("2024-03-01") && duration("1d2h3m4s5ms") < duration("-2d") && datetime("1999-12-31T23:59:59Z").toDate() == datetime("1999-12-31") };',
+            'permit(principal, action, resource) when { decimal("-12.3456").lessThan(decimal("0.0")) || ip("192.168.0.1/24").isInRange(ip("fe80::1/10")) || ip("::ffff:1.2.3.4").isIpv6() };'],
     schema=['entity User in [Group] { n: Long, opt?: Long, mgr?: User, rec: { inner?: Long } } tags Long;\nentity Group;\nentity Doc { owner: User, pub: Bool };\ntype T = Set<{a: Long}>;\nentity Color enum ["r", "g"];\naction view appliesTo { principal: [User], resource: [Doc], context: { flag: Bool, lim?: Long } };\nnamespace N { entity E; action "a b" in [Action::"view"]; }'],
     json=['{"effect":"permit","principal":{"op":"==","entity":{"type":"User","id":"u1"}},"action":{"op":"in","entities":[{"type":"Action","id":"view"}]},"resource":{"op":"is","entity_type":"Doc","in":{"entity":{"type":"Group","id":"g"}}},"conditions":[{"kind":"when","body":{"&&":{"left":{"<":{"left":{"+":{"left":{".":{"left":{"Var":"principal"},"attr":"n"}},"right":{"Value":1}}},"right":{"Value":3}}},"right":{"has":{"left":{"Var":"context"},"attr":"flag"}}}}},{"kind":"unless","body":{"like":{"left":{"Value":"s"},"pattern":["Wildcard",{"Literal":"a"}]}}}],"annotations":{"id":"x"}}',
           '[{"uid":{"type":"User","id":"u1"},"attrs":{"n":1,"rec":{"inner":2},"mgr":{"__entity":{"type":"User","id":"u2"}},"d":{"__extn":{"fn":"decimal","arg":"1.5"}}},"parents":[{"type":"Group","id":"g"}],"tags":{"k":1}},{"uid":{"type":"Group","id":"g"},"attrs":{},"parents":[]}]',
           '{"":{"entityTypes":{"User":{"memberOfTypes":["Group"],"shape":{"type":"Record","attributes":{"n":{"type":"Long"},"opt":{"type":"Long","required":false},"s":{"type":"Set","element":{"type":"Entity","name":"User"}}}},"tags":{"type":"Long"}},"Group":{},"Color":{"enum":["r","g"]}},"actions":{"view":{"appliesTo":{"principalTypes":["User"],"resourceTypes":["User"],"context":{"type":"Record","attributes":{"flag":{"type":"Boolean"}}}},"memberOf":[{"id":"all"}]},"all":{}},"commonTypes":{"T":{"type":"Long"}}}}',
           '{"principal":{"type":"User","id":"u1"},"action":{"type":"Action","id":"view"},"resource":{"type":"Doc","id":"d"},"context":{"flag":true},"policies":{"staticPolicies":{"a":"permit(principal, action, resource);"},"templates":{"t":"permit(principal == ?principal, action, resource);"},"templateLinks":[{"templateId":"t","newId":"l","values":{"?principal":{"type":"User","id":"u1"}}}]},"entities":[],"validateRequest":true}',
-          '{"flag": true, "lim": 3, "x": {"__entity": {"type": "User", "id": "a"}}}'],
+          '{"flag": true, "lim": 3, "x": {"__entity": {"type": "User", "id": "a"}}}',
+          '{"t": {"__extn": {"fn": "datetime", "arg": "2024-02-29T10:20:30.123-0030"}}, "d": {"__extn": {"fn": "duration", "arg": "1d2h3m4s5ms"}}, "x": {"__extn": {"fn": "decimal", "arg": "-12.3456"}}, "i": {"__extn": {"fn": "ip", "arg": "10.1.2.3/8"}}}'],
 )
+
+
+_LOOKALIKE = {}
+for _d in "0123456789":
+    _LOOKALIKE[_d] = [chr(0xFF10 + int(_d)), chr(0x0660 + int(_d)), chr(0x0966 + int(_d)), chr(0x1D7CE + int(_d))]
+for _c in "abcdefghijklmnopqrstuvwxyzTZPUDG":
+    _LOOKALIKE[_c] = [chr(0xFF00 + ord(_c) - 0x20), _c + "\u0301", _c.upper() if _c.islower() else _c.lower()]
+_LOOKALIKE[" "] = ["\u00a0", "\u2028", "\u3000", "\u200b", "\t", "\u0085"]
+_LOOKALIKE["-"] = ["\u2212", "\u2010", "\uff0d", "+"]
+_LOOKALIKE["+"] = ["\uff0b", "-"]
+_LOOKALIKE[":"] = ["\uff1a", "\u2236"]
+_LOOKALIKE["."] = ["\uff0e", "\u3002", ","]
+_LOOKALIKE['"'] = ["\u201c", "\u201d", "\uff02", "'"]
+_LOOKALIKE["/"] = ["\u2215", "\uff0f"]
 
 
 def _json_mutants(doc, rnd, n):
@@ -758,9 +775,15 @@ def _robust_extra(fam, tier, wd, seed):
                         del s[min(i, len(s) - 1)]
                     elif m == 1:
                         s.insert(i, rnd.choice(alphabet))
-                    elif m == 2 and s:
+                    elif m == 2 and s and rnd.random() < 0.5:
                         j = min(i, len(s) - 1)
                         s[j] = rnd.choice(alphabet)
+                    elif m == 2 and s:
+                        # a look-alike of the same Unicode class (other scripts' digits and letters, odd spaces, dashes, quotes)
+                        cand = [j for j, ch in enumerate(s) if len(ch) == 1 and ch in _LOOKALIKE]
+                        if cand:
+                            j = rnd.choice(cand)
+                            s[j] = rnd.choice(_LOOKALIKE[s[j]])
                     elif s:
                         j = min(i, len(s) - 1)
                         s[j:j + 1] = s[j:j + 1] * 2
